@@ -82,9 +82,43 @@ type Term struct {
 
 var nextID int
 
+// hash-consing table: structurally equal terms are the same pointer.
+var consTable = map[string]*Term{}
+
+func consKey(op string, s *Sort, name string, i, j int, val *big.Int, args []*Term, bound []*Term) string {
+	var sb strings.Builder
+	sb.WriteString(op)
+	sb.WriteByte('|')
+	sb.WriteString(s.Name)
+	sb.WriteByte('|')
+	sb.WriteString(name)
+	if i != 0 || j != 0 {
+		fmt.Fprintf(&sb, "|%d,%d", i, j)
+	}
+	if val != nil {
+		sb.WriteByte('#')
+		sb.WriteString(val.Text(16))
+	}
+	for _, a := range args {
+		fmt.Fprintf(&sb, " %d", a.id)
+	}
+	for _, b := range bound {
+		fmt.Fprintf(&sb, " b%d", b.id)
+	}
+	return sb.String()
+}
+
 func mk(op string, s *Sort, args ...*Term) *Term {
+	return mkFull(op, s, "", 0, 0, nil, args, nil, nil)
+}
+
+func mkFull(op string, s *Sort, name string, i, j int, val *big.Int, args []*Term, bound []*Term, pat []*Term) *Term {
+	key := consKey(op, s, name, i, j, val, args, bound)
+	if t, ok := consTable[key]; ok {
+		return t
+	}
 	nextID++
-	t := &Term{Op: op, Sort: s, Args: args, id: nextID}
+	t := &Term{Op: op, Sort: s, Args: args, id: nextID, Name: name, I: i, J: j, Val: val, Bound: bound, Pat: pat}
 	for _, a := range args {
 		if a.free != nil {
 			if t.free == nil {
@@ -95,6 +129,23 @@ func mk(op string, s *Sort, args ...*Term) *Term {
 			}
 		}
 	}
+	if op == "bvar" {
+		t.free = map[string]bool{name: true}
+	}
+	if len(bound) > 0 && t.free != nil {
+		nf := map[string]bool{}
+		for k := range t.free {
+			nf[k] = true
+		}
+		for _, v := range bound {
+			delete(nf, v.Name)
+		}
+		if len(nf) == 0 {
+			nf = nil
+		}
+		t.free = nf
+	}
+	consTable[key] = t
 	return t
 }
 
@@ -115,16 +166,11 @@ func BoolLit(b bool) *Term {
 }
 
 func Const(name string, s *Sort) *Term {
-	t := mk("const", s)
-	t.Name = name
-	return t
+	return mkFull("const", s, name, 0, 0, nil, nil, nil, nil)
 }
 
 func BVar(name string, s *Sort) *Term {
-	t := mk("bvar", s)
-	t.Name = name
-	t.free = map[string]bool{name: true}
-	return t
+	return mkFull("bvar", s, name, 0, 0, nil, nil, nil, nil)
 }
 
 func mask(w int) *big.Int {
@@ -133,16 +179,12 @@ func mask(w int) *big.Int {
 }
 
 func BVLit(v *big.Int, w int) *Term {
-	t := mk("bvlit", BV(w))
-	t.Val = new(big.Int).And(v, mask(w))
-	return t
+	return mkFull("bvlit", BV(w), "", 0, 0, new(big.Int).And(v, mask(w)), nil, nil, nil)
 }
 func BVLit64(v uint64, w int) *Term { return BVLit(new(big.Int).SetUint64(v), w) }
 func BVLitI(v int64, w int) *Term  { return BVLit(big.NewInt(v), w) }
 func IntLit(v int64) *Term {
-	t := mk("intlit", Int)
-	t.Val = big.NewInt(v)
-	return t
+	return mkFull("intlit", Int, "", 0, 0, big.NewInt(v), nil, nil, nil)
 }
 
 func (t *Term) IsLit() bool  { return t.Op == "bvlit" || t.Op == "intlit" }
@@ -158,29 +200,7 @@ func (t *Term) Signed() *big.Int {
 	return v
 }
 
-func Same(a, b *Term) bool {
-	if a == b {
-		return true
-	}
-	if a.Op != b.Op || a.Sort != b.Sort || len(a.Args) != len(b.Args) || a.Name != b.Name || a.I != b.I || a.J != b.J {
-		return false
-	}
-	if a.IsLit() {
-		return a.Val.Cmp(b.Val) == 0
-	}
-	if a.Op == "forall" || a.Op == "exists" {
-		return false
-	}
-	if a.Op == "const" || a.Op == "bvar" {
-		return true // name and sort equal
-	}
-	for i := range a.Args {
-		if !Same(a.Args[i], b.Args[i]) {
-			return false
-		}
-	}
-	return true
-}
+func Same(a, b *Term) bool { return a == b }
 
 func Not(a *Term) *Term {
 	switch a.Op {
@@ -371,6 +391,18 @@ func bvbin(op string, a, b *Term) *Term {
 			}
 		}
 	}
+	if op == "bvadd" || op == "bvsub" {
+		return linNorm(op, a, b)
+	}
+	// unsigned division / remainder by a power of two: shift / mask (no division circuit for the solver)
+	if (op == "bvurem" || op == "bvudiv") && b.IsLit() && b.Val.Sign() > 0 {
+		if k := b.Val.TrailingZeroBits(); new(big.Int).Lsh(big.NewInt(1), k).Cmp(b.Val) == 0 {
+			if op == "bvurem" {
+				return bvbin("bvand", a, BVLit(new(big.Int).Sub(b.Val, big.NewInt(1)), w))
+			}
+			return bvbin("bvlshr", a, BVLit64(uint64(k), w))
+		}
+	}
 	switch op {
 	case "bvadd", "bvor", "bvxor":
 		if a.IsLit() && a.Val.Sign() == 0 {
@@ -441,7 +473,7 @@ func BVNeg(a *Term) *Term {
 	if a.IsLit() {
 		return BVLit(new(big.Int).Neg(a.Val), a.Sort.W)
 	}
-	return mk("bvneg", a.Sort, a)
+	return linNeg(a)
 }
 
 func bvcmp(op string, a, b *Term) *Term {
@@ -474,6 +506,16 @@ func bvcmp(op string, a, b *Term) *Term {
 			return False
 		}
 	}
+	// canonical form: only strict "less than" atoms, so that a <= b and b < a are complementary literals
+	lt := op[:3] + "lt"
+	switch op[3:] {
+	case "le":
+		return Not(mk(lt, Bool, b, a))
+	case "gt":
+		return mk(lt, Bool, b, a)
+	case "ge":
+		return Not(mk(lt, Bool, a, b))
+	}
 	return mk(op, Bool, a, b)
 }
 
@@ -498,9 +540,7 @@ func Extract(hi, lo int, a *Term) *Term {
 	if (a.Op == "zero_extend" || a.Op == "sign_extend") && hi < a.Args[0].Sort.W {
 		return Extract(hi, lo, a.Args[0])
 	}
-	t := mk("extract", BV(hi-lo+1), a)
-	t.I, t.J = hi, lo
-	return t
+	return mkFull("extract", BV(hi-lo+1), "", hi, lo, nil, []*Term{a}, nil, nil)
 }
 
 func ZeroExt(n int, a *Term) *Term {
@@ -510,9 +550,7 @@ func ZeroExt(n int, a *Term) *Term {
 	if a.IsLit() {
 		return BVLit(a.Val, a.Sort.W+n)
 	}
-	t := mk("zero_extend", BV(a.Sort.W+n), a)
-	t.I = n
-	return t
+	return mkFull("zero_extend", BV(a.Sort.W+n), "", n, 0, nil, []*Term{a}, nil, nil)
 }
 
 func SignExt(n int, a *Term) *Term {
@@ -522,9 +560,7 @@ func SignExt(n int, a *Term) *Term {
 	if a.IsLit() {
 		return BVLit(a.Signed(), a.Sort.W+n)
 	}
-	t := mk("sign_extend", BV(a.Sort.W+n), a)
-	t.I = n
-	return t
+	return mkFull("sign_extend", BV(a.Sort.W+n), "", n, 0, nil, []*Term{a}, nil, nil)
 }
 
 func Concat(a, b *Term) *Term {
@@ -562,9 +598,7 @@ func intbin(op string, a, b *Term) *Term {
 		case "*":
 			r.Mul(a.Val, b.Val)
 		}
-		t := mk("intlit", Int)
-		t.Val = r
-		return t
+		return mkFull("intlit", Int, "", 0, 0, r, nil, nil, nil)
 	}
 	return mk(op, Int, a, b)
 }
@@ -649,9 +683,7 @@ func MkCtor(s *Sort, c *Ctor, args ...*Term) *Term {
 			panic(fmt.Sprintf("smt.MkCtor %s field %s: sort %s want %s", c.Name, c.Fields[i].Name, a.Sort, c.Fields[i].Sort))
 		}
 	}
-	t := mk("ctor", s, args...)
-	t.Name = c.Name
-	return t
+	return mkFull("ctor", s, c.Name, 0, 0, nil, args, nil, nil)
 }
 
 // Acc applies accessor number fi of constructor c.
@@ -668,25 +700,19 @@ func Acc(s *Sort, c *Ctor, fi int, a *Term) *Term {
 			return Ite(a.Args[0], Acc(s, c, fi, a.Args[1]), Acc(s, c, fi, a.Args[2]))
 		}
 	}
-	t := mk("acc", c.Fields[fi].Sort, a)
-	t.Name = c.Fields[fi].Name
-	return t
+	return mkFull("acc", c.Fields[fi].Sort, c.Fields[fi].Name, 0, 0, nil, []*Term{a}, nil, nil)
 }
 
 func Is(c *Ctor, a *Term) *Term {
 	if a.Op == "ctor" {
 		return BoolLit(a.Name == c.Name)
 	}
-	t := mk("is", Bool, a)
-	t.Name = c.Name
-	return t
+	return mkFull("is", Bool, c.Name, 0, 0, nil, []*Term{a}, nil, nil)
 }
 
 // App applies a declared (uninterpreted or defined) function.
 func App(name string, rng *Sort, args ...*Term) *Term {
-	t := mk("app", rng, args...)
-	t.Name = name
-	return t
+	return mkFull("app", rng, name, 0, 0, nil, args, nil, nil)
 }
 
 // ---- quantifiers
@@ -698,23 +724,7 @@ func quant(op string, vars []*Term, body *Term, pats ...*Term) *Term {
 	if body.IsTrue() || body.IsFalse() {
 		return body
 	}
-	t := mk(op, Bool, body)
-	t.Bound = vars
-	t.Pat = pats
-	if t.free != nil {
-		nf := map[string]bool{}
-		for k := range t.free {
-			nf[k] = true
-		}
-		for _, v := range vars {
-			delete(nf, v.Name)
-		}
-		if len(nf) == 0 {
-			nf = nil
-		}
-		t.free = nf
-	}
-	return t
+	return mkFull(op, Bool, "", 0, 0, nil, []*Term{body}, vars, pats)
 }
 func Forall(vars []*Term, body *Term, pats ...*Term) *Term { return quant("forall", vars, body, pats...) }
 func Exists(vars []*Term, body *Term) *Term               { return quant("exists", vars, body) }
@@ -835,9 +845,7 @@ func Rebuild(t *Term, args []*Term) *Term {
 			}
 		}
 	}
-	n := mk(t.Op, t.Sort, args...)
-	n.Name, n.I, n.J, n.Val = t.Name, t.I, t.J, t.Val
-	return n
+	return mkFull(t.Op, t.Sort, t.Name, t.I, t.J, t.Val, args, nil, nil)
 }
 
 // ---- printing (for diagnostics; the SMT-LIB writer is in print.go)
